@@ -157,6 +157,24 @@ def none_guarded_writes(fn):
                         g.append(a)
     return g
 
+def post_init_rejections(fn):
+    """[(guard, condition)] for every `if condition: raise ...` of a post-init; guard is the conjunction of the
+    enclosing tests ('' = the setting combination is rejected whatever the other settings are)"""
+    out = []
+    def walk(stmts, guards):
+        for st in stmts:
+            if isinstance(st, ast.If):
+                if any(isinstance(x, ast.Raise) for x in st.body):
+                    out.append((" and ".join(guards), ast.unparse(st.test)))
+                walk([x for x in st.body if not isinstance(x, ast.Raise)], guards + [ast.unparse(st.test)])
+                walk(st.orelse, guards + ["not (%s)" % ast.unparse(st.test)])
+            elif isinstance(st, ast.Raise):
+                out.append((" and ".join(guards), "True"))
+            elif isinstance(st, (ast.For, ast.While, ast.With, ast.Try)):
+                raise Refuse("post-init contains a %s statement" % type(st).__name__)
+    walk(fn.body, [])
+    return out
+
 def calls_super_post_init(fn):
     for n in ast.walk(fn):
         if isinstance(n, ast.Call) and isinstance(n.func, ast.Attribute) and n.func.attr == "__attrs_post_init__" and \
@@ -232,7 +250,7 @@ def generate_config(repo):
     opts_tree, _ = load("ibicus/debias/_isimip_options.py")
     parent_trees = {p: load(rel)[0] for p, rel in PARENTS.items()}
     base_apply = method(find_class(parent_trees["Debiaser"], "Debiaser"), "apply")
-    dflt, expr, fields_txt, calls, writes, guarded, reads = [], [], [], [], [], [], []
+    dflt, expr, fields_txt, calls, writes, guarded, reads, rejections = [], [], [], [], [], [], [], []
     for cname, rel in DEBIASERS:
         tree, src = load(rel)
         cls = find_class(tree, cname)
@@ -263,10 +281,12 @@ def generate_config(repo):
                                                       clist(vals), ("(Some %s)" % cstr(conv)) if conv else "None"))
         fields_txt.append("  | %s => %s" % (cname, clist(fl)))
         # post-init chain
-        w, gd = [], []
+        w, gd, rj = [], [], []
         for c in chain:
             pi = method(c, "__attrs_post_init__")
             if pi is not None:
+                for a in post_init_rejections(pi):
+                    if a not in rj: rj.append(a)
                 for a in self_writes(pi):
                     if a not in w: w.append(a)
                 for a in none_guarded_writes(pi):
@@ -275,6 +295,7 @@ def generate_config(repo):
                     break
         writes.append("  | %s => %s" % (cname, clist(cstr(a) for a in w)))
         guarded.append("  | %s => %s" % (cname, clist(cstr(a) for a in gd)))
+        rejections.append("  | %s => %s" % (cname, clist("(%s, %s)" % (cstr(g), cstr(c_)) for g, c_ in rj)))
         ap = method(cls, "apply")
         if ap is None:
             for c in chain[1:]:
@@ -286,6 +307,7 @@ def generate_config(repo):
     out.append("Definition fields (d : debiaser) : list (string * field) :=\n  match d with\n%s\n  end." % "\n".join(fields_txt))
     out.append("Definition post_init_writes (d : debiaser) : list string :=\n  match d with\n%s\n  end." % "\n".join(writes))
     out.append("Definition post_init_none_guarded (d : debiaser) : list string :=\n  match d with\n%s\n  end." % "\n".join(guarded))
+    out.append("Definition post_init_rejections (d : debiaser) : list (string * string) :=\n  match d with\n%s\n  end." % "\n".join(rejections))
     out.append("Definition apply_calls_post_init (d : debiaser) : bool :=\n  match d with\n%s\n  end.\n" % "\n".join(calls))
     # ISIMIP bound defaults
     itree, _ = load("ibicus/debias/_isimip.py")
